@@ -27,6 +27,14 @@ func main() {
 		os.Exit(run(os.Args[2:]))
 	case "replay":
 		os.Exit(replay(os.Args[2:]))
+	case "gen":
+		for d, files := range driver.GenerateHarnesses() {
+			for n, b := range files {
+				out := os.Args[2] + "/" + strings.ReplaceAll(d, "/", "_") + "_" + n
+				os.WriteFile(out, b, 0o644)
+				fmt.Println(out)
+			}
+		}
 	default:
 		fmt.Println("unknown command")
 		os.Exit(2)
